@@ -266,6 +266,12 @@ func c01SingleEdits() []c01Case {
 	single("unnamed-check-expression", "`id` integer NOT NULL, PRIMARY KEY (`id`), CHECK (id > 0)", "`id` integer NOT NULL, PRIMARY KEY (`id`), CHECK (id > 1)")
 	single("inline-unique-added", "`id` integer NOT NULL, `a` integer NULL, PRIMARY KEY (`id`)", "`id` integer NOT NULL, `a` integer NULL, PRIMARY KEY (`id`), UNIQUE (`a`)")
 	single("inline-unique-dropped", "`id` integer NOT NULL, `a` integer NULL, PRIMARY KEY (`id`), UNIQUE (`a`)", "`id` integer NOT NULL, `a` integer NULL, PRIMARY KEY (`id`)")
+	single("pk-column-nullability", "`k` text NULL, `v` integer NULL, PRIMARY KEY (`k`)", "`k` text NOT NULL, `v` integer NULL, PRIMARY KEY (`k`)")
+	single("pk-column-nullability-back", "`k` text NOT NULL, `v` integer NULL, PRIMARY KEY (`k`)", "`k` text NULL, `v` integer NULL, PRIMARY KEY (`k`)")
+	single("composite-pk-column-nullability", "`a` integer NOT NULL, `b` text NULL, PRIMARY KEY (`a`, `b`)", "`a` integer NULL, `b` text NOT NULL, PRIMARY KEY (`a`, `b`)")
+	single("unique-column-nullability", "`id` integer NOT NULL, `u` text NULL, PRIMARY KEY (`id`), UNIQUE (`u`)", "`id` integer NOT NULL, `u` text NOT NULL, PRIMARY KEY (`id`), UNIQUE (`u`)")
+	single("fk-column-nullability", "`id` integer NOT NULL, `p` integer NULL, PRIMARY KEY (`id`), FOREIGN KEY (`p`) REFERENCES `parent` (`id`)", "`id` integer NOT NULL, `p` integer NOT NULL, PRIMARY KEY (`id`), FOREIGN KEY (`p`) REFERENCES `parent` (`id`)")
+	single("indexed-column-default", "`id` integer NOT NULL, `u` text NULL DEFAULT 'a', PRIMARY KEY (`id`), UNIQUE (`u`)", "`id` integer NOT NULL, `u` text NULL DEFAULT 'b', PRIMARY KEY (`id`), UNIQUE (`u`)")
 	single("strict-added", "`id` integer NOT NULL, `a` text NULL, PRIMARY KEY (`id`)", "`id` integer NOT NULL, `a` text NULL, PRIMARY KEY (`id`)) STRICT; --")
 	single("without-rowid-added", "`id` integer NOT NULL, `a` text NULL, PRIMARY KEY (`id`)", "`id` integer NOT NULL, `a` text NULL, PRIMARY KEY (`id`)) WITHOUT ROWID; --")
 	return out
